@@ -249,14 +249,16 @@ def _layout_text(sel, ks_text):
                 line = ""
                 for c in range(2):
                     last = (p == 1 and m == 1 and r == rows - 1 and c == 1)
-                    nz = ((r + c + m + p) % 3 == 0)
+                    nz = ((r + c + m + p) % 3 == 0) or (p == 1 and m == 0 and r == 0)
                     if last:
                         nz = LAY_LAST[sel["last"]] != "zero"
                     ch = chars[(r + 2 * c + m + p) % 4] if nz else "0"
                     line += ch
                     if nz:
                         k = None
-                        if first or (last and LAY_LAST[sel["last"]] == "keysound"):
+                        # keysounds: the first non-zero cell, every non-zero cell of player 1's first row (two cells of one
+                        # row with the SAME index) and, if asked for, the very last cell
+                        if first or (p == 1 and m == 0 and r == 0) or (last and LAY_LAST[sel["last"]] == "keysound"):
                             line += "[" + ks_text + "]"; k = True; first = False
                         exp.append((p, Fraction(4 * m) + Fraction(4 * r, rows), c, ch, k))
                 lines.append((LAY_ROWPRE[sel["rowpre"]] if r % 2 else "") + line + LAY_ROWSUF[sel["rowsuf"]])
